@@ -231,7 +231,7 @@ fn enumerate(t: Tier, shard: usize, nshards: usize, f: &mut dyn FnMut(Case) -> b
     for rep in 0..t.pick(4usize, 16) {
         for fam in [Fam::Dyn, Fam::Static] {
             // the dynamic type has no size limit: four sizes beyond the stated sample, main thread only
-            for n in 0..=(if fam == Fam::Dyn { 16usize } else { 12 }) {
+            for n in 0..=(if fam == Fam::Dyn { 16usize } else { 13 }) {
                 for threads in [1usize, THREADS] {
                     if n > 12 && (threads != 1 || rep >= 2) {
                         continue;
